@@ -59,8 +59,26 @@ def r1_effects(program, rep):
                 if e.kind == "mutate":
                     for o in e.origins:
                         if o[0] == "G" and o[1] != "?":
-                            bad.append((e, "module-level %s.%s" % (o[1],
-                                                                   o[2])))
+                            # a memo of immutable values determined by
+                            # their keys carries nothing from call to call
+                            from ..memo import memo_verdict, \
+                                memo_values_mutable
+                            try:
+                                verdict, text = memo_verdict(fn, o[2])
+                                mut = memo_values_mutable(fn, o[2])
+                            except AnalysisError as ex:
+                                verdict, text, mut = "unknown", str(ex), None
+                            if verdict == "ok" and mut is False:
+                                continue
+                            if verdict == "stale" or mut is True:
+                                bad.append((e, "module-level %s.%s%s" % (
+                                    o[1], o[2], " (a cache handing out "
+                                    "mutable objects)" if mut is True and
+                                    verdict != "stale" else "")))
+                            else:
+                                rep.undecided("C20-R1", "%s writes the "
+                                              "module-level %s.%s: %s" % (
+                                                  q, o[1], o[2], text))
                         elif o[0] == "P" and o[1] not in ("self", "cls") \
                                 and o[2] <= 2 and public:
                             bad.append((e, "argument %s" % o[1]))
